@@ -61,6 +61,14 @@ var c12Reqs = []c12Req{
 	{"d-ptr-map", `{ plainPtr { name n tag } plainMap { name n tag } plainTagged { name n tag } }`, nil, nil, "valid", nil},
 	{"sub-two-roots", `subscription { a: events { id } b: ticks { s } }`, nil, nil, "subscription", nil},
 	{"sub-one-root", `subscription { events { id name } }`, nil, nil, "subscription", nil},
+	{"ws-plain", `{ x9 leafy { sn } }`, nil, nil, "invalid", nil},
+	{"ws-indented", "\n\n   { x9 leafy { sn } }", nil, nil, "invalid", nil},
+	{"ws-exec-plain", `{ x1 leafy { s sNN } }`, nil, map[string]string{"R@x1": FErr, "R@leafy.sNN": FErr}, "failing", nil},
+	{"ws-exec-indented", "\n  { x1 leafy { s sNN } }  \n", nil, map[string]string{"R@x1": FErr, "R@leafy.sNN": FErr}, "failing", nil},
+	{"h-hostile-noargs", `{ x1 x2 leafy { s } }`, nil, map[string]string{"R@x1": FHostile, "R@leafy.s": FHostile}, "valid", nil},
+	{"h-noargs-after", `{ x4 x5 a { name } }`, nil, nil, "valid", nil},
+	{"s-enum-all", `{ __type(name:"Kind") { enumValues(includeDeprecated:true) { name isDeprecated } } }`, nil, nil, "introspection", nil},
+	{"s-enum-twice", `{ a: __type(name:"Kind") { enumValues { name } } b: __type(name:"Kind") { enumValues(includeDeprecated:true) { name } } c: __type(name:"Kind") { enumValues { name } } }`, nil, nil, "introspection", nil},
 	{"s-types", `{ __schema { types { name kind } } }`, nil, nil, "introspection", nil},
 	{"s-iface", `{ __type(name:"Node") { fields { name args { name type { name } } } possibleTypes { name } } }`, nil, nil, "introspection", nil},
 	{"s-enum", `{ __type(name:"Kind") { enumValues { name } } }`, nil, nil, "introspection", nil},
